@@ -4,6 +4,14 @@ From Dolt Require Import C08.Model C08.Spec C35.Model.
 Import ListNotations.
 Local Open Scope N_scope.
 
+(* a store without dangling references, within the universe (C07) *)
+Definition sink_closed (u : graph) (s : store) : Prop :=
+  forall x y, has s x = true -> In y (refs u x) -> has s y = true.
+
+(* every ref points at a present chunk *)
+Definition refs_present (d : remote) : Prop :=
+  forall n a, In (n, a) (r_refs d) -> has (r_store d) a = true.
+
 (* a ref is backed by data: everything reachable from its head is at the store *)
 Definition ref_backed (u : graph) (d : remote) : Prop :=
   forall n a, In (n, a) (r_refs d) -> forall x, reach u [a] x -> has (r_store d) x = true.
